@@ -323,8 +323,7 @@ class BlockModeTarget(Target):
         elif mode == "CFB":
             s = seg // 8
             lens = set(bset(s)) | set(bset(bs))
-            st = Stream("m", "encrypt/decrypt", s, lens, has_out=True,
-                        win=sorted({s, bs, 2 * bs}) if big else sorted({s, bs}))
+            st = Stream("m", "encrypt/decrypt", s, lens, has_out=True, win=sorted({s, bs}))
         elif mode == "OFB":
             st = Stream("m", "encrypt/decrypt", bs, bset(bs, (8 * bs - 1, 8 * bs, 8 * bs + 1) if big else ()),
                         has_out=True, win=[bs, 2 * bs] if big else None)
@@ -1037,7 +1036,6 @@ def deep_specs():
             ("aead", "EAX", A, 24, None, ()),
             ("aead", "EAX", A, 32, None, (("nonce_len", 16),)),
             ("aead", "EAX", A, 16, None, (("mac_len", 4), ("nonce_len", 1))),
-            ("aead", "EAX", "Blowfish", 16, None, (("mac_len", 8),)),
             ("aead", "OCB", A, 24, None, ()),
             ("aead", "OCB", A, 32, None, (("nonce_len", 15),)),
             ("aead", "OCB", A, 16, None, (("nonce_len", 1),)),
